@@ -63,17 +63,19 @@ type Obligation struct {
 	Goal   *Term
 	Axioms []*Term
 	// results
-	Status     string // discharged | trivial | failed
-	Solver     string
-	Time       float64
-	Answer     string
-	Model      string
-	Query      string
-	ex         *Exec
-	Inputs     []inputSym
-	Expect     string // "unsat" normally; "sat" for vacuity checks
-	Vacuity    bool
-	smallModel bool
+	Status      string // discharged | trivial | failed
+	Solver      string
+	Time        float64
+	Answer      string
+	Model       string
+	Query       string
+	ex          *Exec
+	Inputs      []inputSym
+	Expect      string // "unsat" normally; "sat" for vacuity checks
+	Vacuity     bool
+	smallModel  bool
+	allTimeouts bool
+	Retried     bool // discharged only by the calm retry after timeouts
 }
 
 type inputSym struct {
@@ -174,8 +176,8 @@ type Exec struct {
 	rangeIdx    []*Term
 	visStack    []*Term // per enclosing map-range loop: the ghost set of keys already produced
 	epochMerges map[int]*epochMerge
-	iterStart   []*State // per enclosing for loop: the state at the start of the current iteration
-	dynLocs     []modLoc // places assumed unchanged by calls through function values (dyncall-preserves)
+	iterStart   []*State    // per enclosing for loop: the state at the start of the current iteration
+	dynLocs     []modLoc    // places assumed unchanged by calls through function values (dyncall-preserves)
 	stableMaps  []stableMap // maps ranged over by enclosing loops that reason with visited(): they must not be written
 	framed      map[*Term]bool
 	fnSyms      map[string]*types.Func
